@@ -21,3 +21,18 @@ Definition plasma_check_eqb (a b : plasma_out) : bool :=
 (* in: (is_receive, to_contract, found, key, data length); out: base plasma, -1 for the error case *)
 Definition base_plasma_run (i : bool * bool * bool * Z * Z) : Z :=
   let '(r, c, f, k, l) := i in match base_plasma r c f k l with BOk b => b | BErr => -1 end.
+
+(* a sequence of candidates of one account between two momentums.
+   in: (fused QSR, committed chain plasma, uncommitted chain plasma before the first candidate,
+        candidates (base cost computed by the harness, fused plasma, difficulty, PoW valid));
+   out: per candidate (verdict, chain plasma read from the account's unconfirmed store after it) *)
+Definition pool_in := (Z * Z * Z * list (Z * Z * Z * bool))%type.
+Definition pool_trace_run (i : pool_in) : list (Z * Z) :=
+  let '(fa, c, u, cs) := i in
+  pool_trace fa c u (map (fun k => let '(b, f, d, pv) := k in {| c_base := b; c_f := f; c_d := d; c_pow := pv |}) cs).
+Fixpoint pool_trace_eqb (a b : list (Z * Z)) : bool :=
+  match a, b with
+  | [], [] => true
+  | (x1, y1) :: a', (x2, y2) :: b' => (x1 =? x2) && (y1 =? y2) && pool_trace_eqb a' b'
+  | _, _ => false
+  end.
